@@ -70,13 +70,15 @@ class Fn:
 
     def __init__(self, relpath, cls, fdef, name, params, fields, reads, writes, draw=None, oracles=None,
                  gen_size=None, returns_value=True, extra_params=(), helpers=None, children=False, callables=None,
-                 module_helpers=None):
+                 module_helpers=None, self_obj=False, ret_type='D'):
         self.relpath, self.cls, self.fdef, self.name = relpath, cls, fdef, name
         self.params, self.fields, self.reads, self.writes = params, fields, reads, writes
         self.draw, self.oracles, self.gen_size = draw, oracles or {}, gen_size
         self.returns_value = returns_value
         self.children = children        # g.get_examples() of child objects is the oracle function `get`
         self.callables = callables or {}  # {'self.trans': (is_callable flag, callable name, list-of-callables name)}
+        self.self_obj = self_obj          # the method's `self` is itself a generator object (operator overloads of BaseGenerator)
+        self.ret_type = ret_type
         self.module_helpers = module_helpers or {}   # {name: FunctionDef} module-level functions that may be inlined
         self.helpers = helpers or {}     # {name: FunctionDef} methods of the same class that may be inlined
         self.inline_depth = 0
@@ -140,7 +142,8 @@ class Fn:
         if k is not None:
             if k in env:
                 return env[k]
-            self.err(node, 'unknown name')
+            if not (self.self_obj and isinstance(node, ast.Attribute)):
+                self.err(node, 'unknown name')
         if isinstance(node, ast.Constant) and isinstance(node.value, int) and not isinstance(node.value, bool):
             if node.value < 0:
                 self.err(node, 'negative literal')
@@ -311,6 +314,16 @@ class Fn:
             if ('get', 'gen -> pyv') not in self.used_oracles:
                 self.used_oracles.append(('get', 'gen -> pyv'))
             return f'get {env[node.func.value.id][0]}', 'D'
+        # building a combinator from generator objects: ConcatGenerator(a, b) ...
+        if text in ('ConcatGenerator', 'EnsembleGenerator', 'MeshGenerator') and node.args \
+                and not any(isinstance(a, ast.Starred) for a in node.args):
+            vals = []
+            for a in node.args:
+                v, tv = self.expr(a, env, binds, ref)
+                if tv != 'G' or v == '#underlying':
+                    self.err(node, 'a combinator is built from generator objects only')
+                vals.append(v)
+            return f'{text[:-len("Generator")]} [{"; ".join(vals)}]', 'G'
         # tuple() / tuple(e) / tuple(<generator expression over zip>)
         if text == 'tuple' and not node.args:
             return '[]', 'EMPTYTU'
@@ -394,6 +407,8 @@ class Fn:
                 return f'is_list {par(v)}', 'B'
             if tv == 'G' and what == 'MeshGenerator' and v != '#underlying':
                 return f'obj_is_mesh {par(v)}', 'B'
+            if tv == 'G' and what == 'BaseGenerator' and v != '#underlying':
+                return f'obj_is_generator {par(v)}', 'B'
             self.err(node, 'isinstance test not accepted')
         if text in ('self.generator.get_examples', 'generator.get_examples') and not node.args:
             g = env.get('self.generator' if text.startswith('self.') else 'generator')
@@ -672,7 +687,7 @@ class Fn:
 
     def ret_value(self, node, env, ref, binds):
         e, te = self.expr(node.value, env, binds, ref)
-        return self.coerce(node, e, te, 'D')
+        return self.coerce(node, e, te, self.ret_type)
 
     def state_tuple(self, env):
         vals = [env['self.' + f][0] for f in self.writes]
@@ -699,6 +714,11 @@ class Fn:
         if isinstance(s, ast.Expr) and ast.unparse(s.value) == f'super({self.cls}, self).__init__()':
             return go()
         self.no_mutation(s)
+        if isinstance(s, ast.Expr) and isinstance(s.value, ast.Call) and not s.value.keywords:
+            text = ast.unparse(s.value.func)
+            if '.' in text and text.split('.', 1)[0] in ('self', self.cls) and text.split('.', 1)[1] in self.helpers \
+                    and text not in self.oracles:
+                return self.inline_stmt(s, text, env, ref, go)
         if isinstance(s, ast.Assign) and len(s.targets) == 1:
             lines = self.assign(s, s.targets[0], s.value, env, ref)
             return '\n'.join(lines + [go()])
@@ -862,6 +882,41 @@ class Fn:
         self.inline_depth += 1
         try:
             return self.ret_expr(fdef.body, env2, binds, {})
+        finally:
+            self.inline_depth -= 1
+            self.fdef_ctx = saved
+
+    def inline_stmt(self, s, text, env, ref, go):
+        """`self.check(x)` as a statement: the helper's body may only raise (conditionally); then the caller continues"""
+        name = text.split('.', 1)[1]
+        fdef = self.helpers[name]
+        a = fdef.args
+        decos = [ast.unparse(d) for d in fdef.decorator_list]
+        if a.vararg or a.kwarg or a.kwonlyargs or a.defaults or a.posonlyargs or any(d != 'staticmethod' for d in decos):
+            self.err(s, 'helper signature not accepted')
+        params = [x.arg for x in a.args]
+        if not decos:
+            params = params[1:]
+        if len(params) != len(s.value.args) or self.inline_depth >= 3:
+            self.err(s, 'helper call not accepted')
+        binds = []
+        env2 = {}
+        for p, an in zip(params, s.value.args):
+            v, tv = self.expr(an, env, binds, ref)
+            if self.has_partial(binds) or v.startswith('#'):
+                self.err(s, 'argument not accepted for a helper')
+            env2[p] = (v, tv)
+        for st in fdef.body:
+            if any(isinstance(n, (ast.Return, ast.Assign, ast.AugAssign, ast.For, ast.While)) for n in ast.walk(st)):
+                self.err(st, 'a helper called as a statement may only raise')
+        saved = self.fdef_ctx
+        self.fdef_ctx = f'{self.cls}.{name} (inlined)'
+        self.inline_depth += 1
+        def back(e):
+            self.fdef_ctx = saved
+            return go()
+        try:
+            return self.wrap_binds(binds, self.block(fdef.body, env2, {}, back))
         finally:
             self.inline_depth -= 1
             self.fdef_ctx = saved
@@ -1071,6 +1126,9 @@ class Fn:
         if self.draw == 'single':
             head.append(('child', 'pyv'))
         self.scope = list(head) + self.extra_params
+        if self.self_obj:
+            env['self'] = ('self_', 'G')
+            self.scope.append(('self_', 'gen'))
         for py, coq, ty in self.params:
             key = py.lstrip('*')
             if ty == 'UNDERLYING':
